@@ -228,7 +228,7 @@ def gen_wild(rng):
         mn, mx = rng.choice([(1.2, 3.4), (1.2, 3.6), (1.4, 5.7), (1.7, 3.9), (1.9, 6.2), (1.1, 1.1), (1.0, 5.0)]) if rng.random() < 0.6 \
             else (lambda a: (a, a + rng.random() * 6))(1.0 + rng.random() * 2)
         c.update(minm=fr(Fraction(mn)), maxm=fr(Fraction(mx)), fallback=fr(Fraction(rng.choice([1, 1, 2, 1024]), rng.choice([1, 1, 4]))),
-                 ts=fr(Fraction(rng.choice([0.5, 0.25, 0.1, 0.3, 0.9, rng.random()]))))
+                 ts=fr(Fraction(rng.choice([0.5, 0.25, 0.1, 0.3, 0.9, rng.random(), 1e-17, 1e-300, 5e-324, 1.0]))))
         if rng.random() < 0.5:
             c["hist"] = [[t, False] for t, _ in c["hist"]]      # nothing but failures in the window
         return c
